@@ -304,8 +304,11 @@ static const a_real k5e[] = {A_MF_PSIG, 2, -1.5, -2, -0.5, A_MF_GAUSS2, 1.5, -0.
 static const a_real k8e[] = {A_MF_GBELL, 1.5, 2, -1.5, A_MF_TRI, -2, -1, 0, A_MF_SIG, 1, 0.5, A_MF_GAUSS, 1.5, 0, A_MF_S, 0, 1.5, A_MF_Z, -1.5, 0, A_MF_LINS, 0.5, 2, A_MF_LINZ, -2, -0.5};
 static const a_real k8k[64] = {-2, -1, 0, 1, 2, -2, -1, 0, -1, 0, 1, 2, -2, -1, 0, 1, 0, 1, 2, -2, -1, 0, 1, 2, 1, 2, -2, -1, 0, 1, 2, -2,
                                2, -2, -1, 0, 1, 2, -2, -1, -2, -1, 0, 1, 2, -2, -1, 0, -1, 0, 1, 2, -2, -1, 0, 1, 0, 1, 2, -2, -1, 0, 1, 2};
+// narrow triangles with gaps between them: at most one set fires on each axis, often with degrees that sum to less than one (the bounded
+// product then gives the only candidate rule the strength zero: no rule fires, the gains stay at their base values)
+static const a_real gap3e[] = {A_MF_TRI, -2, -1.5, -1, A_MF_TRI, -0.5, 0, 0.5, A_MF_TRI, 1, 1.5, 2};
 struct Base { const char *name; unsigned n, active; const a_real *me, *mec, *kp, *ki, *kd; };
-static const Base BASES[11] = {
+static const Base BASES[12] = {
     {"3x3 shoulder triangles (test/pid_fuzzy.h)", 3, 2, m3e, m3ec, m3kp, m3ki, m3kd},
     {"5x5 trapezoid shoulders", 5, 2, m5e, m5e, m5k, m5k, nullptr},
     {"3x3 wide triangles, 3 active", 3, 3, w3e, w3e, w3k, nullptr, w3k},
@@ -317,6 +320,7 @@ static const Base BASES[11] = {
     {"2 huge ramps + triangle (tiny firing strengths)", 3, 3, n3e, n3e, u3k, u3k, u3k},
     {"5 sets of the four-parameter kinds (psig, gauss2, dsig, trap, pi)", 5, 5, k5e, k5e, m5k, m5k, m5k},
     {"8 sets of the two- and three-parameter kinds (gbell, tri, sig, gauss, s, z, lins, linz)", 8, 8, k8e, k8e, k8k, k8k, k8k},
+    {"3 narrow triangles with gaps (one set active at most)", 3, 1, gap3e, gap3e, u3k, u3k, u3k},
 };
 static const unsigned OPRS[7] = {A_PID_FUZZY_EQU, A_PID_FUZZY_CAP, A_PID_FUZZY_CAP_ALGEBRA, A_PID_FUZZY_CAP_BOUNDED, A_PID_FUZZY_CUP, A_PID_FUZZY_CUP_ALGEBRA, A_PID_FUZZY_CUP_BOUNDED};
 static const char *OPRN[7] = {"equ", "cap", "cap_algebra", "cap_bounded", "cup", "cup_algebra", "cup_bounded"};
@@ -421,9 +425,11 @@ static void inference(bool thorough)
                             if (!(got[t] >= (double)g.lo[t] - tol && got[t] <= (double)g.hi[t] + tol)) { R.viol(sig + "outside-consequents", std::string("the ") + gn[t] + " correction " + num(got[t]) + " is not between the smallest and largest consequent of the active rules [" + num((double)g.lo[t]) + "," + num((double)g.hi[t]) + "]", in); break; }
                             if (!(std::fabs(got[t] - (double)want[t]) <= tol)) { R.viol(sig + "weighted-mean", std::string("the ") + gn[t] + " correction " + num(got[t]) + " is not the weighted mean of the active consequents " + num((double)want[t]) + " (" + std::to_string(g.ne) + "x" + std::to_string(g.nec) + " sets active)", in); break; }
                         }
-                        else if (g.ne == 0 || g.nec == 0)
+                        else
                         {
-                            if (got[t] != 0) { R.viol(sig + "no-rule-active", std::string("no rule is active, yet ") + gn[t] + " deviates from its base value by " + num(got[t]), in); break; }
+                            // no set active on one axis, or sets active whose every joint strength is exactly zero (bounded product of degrees that
+                            // sum to at most one): no rule fires, the gains are the base gains
+                            if (got[t] != 0) { R.viol(sig + ((g.ne == 0 || g.nec == 0) ? "no-rule-active" : "zero-strength"), std::string((g.ne == 0 || g.nec == 0) ? "no rule is active" : "every active pair of sets has joint strength zero") + ", yet " + gn[t] + " deviates from its base value by " + num(got[t]), in); break; }
                         }
                     }
                 }
